@@ -30,81 +30,133 @@ Definition step_prop (ev : env) (s : st) (o : op) (refs_before refs_after sched 
   no_live_b sched refs_after &&
   (if requests_deletion ev s o then all_garbage_b refs_before refs_after sched else true).
 
-(* ---------- trigger predicates of the known findings ---------- *)
-(* the names an operation writes *)
-Definition touched (o : op) : list path :=
-  match o with
-  | Create p _ _ | Update p _ | Append p _ | Write p _ _ _ => [p]
-  | Rename _ newp => [newp]
-  | Link oldp newp _ => [oldp; newp]
-  | Delete _ _ _ _ | Unlink _ => []
-  end.
+(* ---------- trigger predicates of the known findings: one explanation PER OFFENDING CHUNK ----------
+   A step fails the property through individual chunk ids: a scheduled id that is still referenced
+   afterwards (live), or an id that stopped being referenced and was not scheduled although the
+   operation asked for the data to go (leaked).  Every such id must be explained by the syntactic
+   condition of one known finding, evaluated on the state BEFORE the step and on the operation's
+   arguments (never on the model's outcome): a failing chunk that no condition explains is an
+   unknown violation, whatever else happens in the history. *)
 
+(* the offending chunk ids of one step, from the sets before / after and the scheduled ids *)
+Definition live_ids (refs_after sched : list N) : list N := filter (fun c => mem c refs_after) sched.
+Definition leaked_ids (req : bool) (refs_before refs_after sched : list N) : list N :=
+  if req then filter (fun c => negb (mem c refs_after) && negb (mem c sched)) refs_before else [].
+
+(* c sits under a (top-level) manifest chunk of the list *)
+Definition under_manifest (ev : env) (cs : list chunk) (c : N) : bool :=
+  existsb (fun m => c_manifest m &&
+                    match ms_lookup (ms ev) (c_fid m) with Some sub => mem c (fids sub) | None => false end) cs.
+
+Definition chunks_at (s : st) (p : path) : list chunk :=
+  match w_find s p with Some e => h_chunks e | None => [] end.
 Definition reach_at (ev : env) (s : st) (p : path) : list N :=
   match w_find s p with Some e => reach ev (h_chunks e) | None => [] end.
 
-(* k = 0 / 3: the operation schedules a chunk that the entry it has just written still reaches
-   (the retained chunk sits under a manifest of the new list, so neither the top-level id
-   comparison of deleteChunksIfNotNew nor the one-level expansion of a dropped manifest sees it).
-   0: the write went through Filer.CreateEntry; 3: through the gRPC UpdateEntry handler *)
-Definition trig_local (ev : env) (s : st) (o : op) : bool :=
-  let r := step ev s o in
-  existsb (fun p => negb (disjoint (sched_of r) (reach_at ev (st_of r) p))) (touched o).
+(* the chunk list an operation brings *)
+Definition op_chunks (o : op) : list chunk :=
+  match o with
+  | Create _ e _ | Update _ e => h_chunks e
+  | Append _ cs | Write _ cs _ _ => cs
+  | _ => []
+  end.
+
 Definition via_update (o : op) : bool :=
   match o with Update _ _ | Write _ _ _ false => true | _ => false end.
 
-(* k = 1: the operation schedules a chunk that is still visible through a name carrying a hard link id *)
-Definition trig_shared (ev : env) (s : st) (o : op) : bool :=
-  let r := step ev s o in
-  existsb (fun kv => negb (h_hl (snd kv) =? 0) &&
-                     negb (disjoint (sched_of r) (reach ev (h_chunks (view (st_of r) (snd kv))))))
-          (names (st_of r)).
+(* k = 0 / 3: an entry is written over an existing one, the chunk stays reachable from the list the
+   operation brings, and it sits under a manifest chunk of the new list (wrap: the top-level id
+   comparison of deleteChunksIfNotNew does not see it) or of the old list (unwrap / re-wrap: a dropped
+   manifest is expanded by one level and deleted with everything below it).
+   0: the write goes through Filer.CreateEntry; 3: through the gRPC UpdateEntry handler *)
+Definition explain_manifest (ev : env) (s : st) (o : op) (c : N) : bool :=
+  match o with
+  | Create p _ _ | Update p _ | Write p _ _ _ =>
+      mem c (reach ev (op_chunks o)) &&
+      (under_manifest ev (op_chunks o) c || under_manifest ev (chunks_at s p) c)
+  | _ => false
+  end.
 
-(* k = 2: a directory deleted recursively with data deletion has a child that carries a hard link id
-   (its chunks are left to maybeDeleteHardLinks, which never schedules any chunk) *)
-Definition trig_rec_hl (ev : env) (s : st) (o : op) : bool :=
+(* the names whose entry an operation removes or replaces by an entry without link id, with data deletion *)
+Definition victims (s : st) (o : op) : list path :=
+  match o with
+  | Delete p _ _ true => [p]
+  | Create p e _ | Update p e => if h_hl e =? 0 then [p] else []
+  | Rename oldp newp =>
+      if path_eqb oldp newp then [] else newp :: map (fun c => child newp (fst c)) (list_children s oldp)
+  | _ => []
+  end.
+
+(* the chunk is shown by the link record of the blob stored at [p], and other names carry that id too *)
+Definition shared_at (ev : env) (s : st) (p : path) (c : N) : bool :=
+  match nfind s p with
+  | Some b => negb (h_hl b =? 0) && Nat.ltb 1 (count_names s (h_hl b)) && mem c (reach ev (h_chunks (view s b)))
+  | None => false
+  end.
+
+(* k = 1: the chunk belongs to the link record of a victim name that is not the last name of its record *)
+Definition explain_shared (ev : env) (s : st) (o : op) (c : N) : bool :=
+  existsb (fun t => shared_at ev s t c) (victims s o).
+
+(* k = 2 (leak): a directory is deleted recursively with data deletion and the chunk is shown by a
+   child that carries a hard link id (left to maybeDeleteHardLinks, which schedules nothing) *)
+Definition explain_rec_hl (ev : env) (s : st) (o : op) (c : N) : bool :=
   match o with
   | Delete p _ _ true =>
       match find_entry ev s p with
-      | Some e => h_dir e && existsb (fun c => negb (h_dir (snd c)) && negb (h_hl (snd c) =? 0)) (list_children s p)
+      | Some e => h_dir e &&
+                  existsb (fun ch => negb (h_dir (snd ch)) && negb (h_hl (snd ch) =? 0) &&
+                                     mem c (reach ev (h_chunks (view s (snd ch))))) (list_children s p)
       | None => false
       end
   | _ => false
   end.
 
-(* k = 4 (sticky): an earlier operation detached a name from its link record but may have kept the
-   record's chunks in the name's new plain entry — a rename of an entry whose blob carries a link id
+(* k = 4: the chunk ids an operation may leave shared between a plain entry and a link record:
+   a rename that moves (or replaces) a name whose blob carries the id of a record with other names
    (moveSelfEntry copies the chunks, not the id: the C21 finding), or an entry without id written over
-   such a name (the counter is decremented since the repair, but the new plain entry may keep chunks
-   of the record).  From then on chunks can be shared outside any link record *)
-Definition overwrites_linked (s : st) (o : op) : bool :=
+   such a name (the counter is decremented since the repair, the new plain entry may keep the chunks) *)
+Definition taint_of (ev : env) (s : st) (o : op) : list N :=
+  let at_ (p : path) := filter (shared_at ev s p) (reach_at ev s p) in
   match o with
-  | Create p e _ | Update p e => (h_hl e =? 0) && blob_linked s p
+  | Create p e _ | Update p e => if h_hl e =? 0 then at_ p else []
   | Rename oldp newp =>
-      negb (path_eqb oldp newp) &&
-      (blob_linked s newp ||
-       existsb (fun c => blob_linked s (child newp (fst c))) (list_children s oldp))
-  | _ => false
+      if path_eqb oldp newp then []
+      else at_ oldp ++ at_ newp ++
+           flat_map (fun c => at_ (child oldp (fst c)) ++ at_ (child newp (fst c))) (list_children s oldp)
+  | _ => []
   end.
-Definition renames_linked (ev : env) (s : st) (o : op) : bool :=
-  trig_rename_linked s o || overwrites_linked s o.
 
-Definition classify (ev : env) (detached : bool) (s : st) (o : op) : option N :=
-  if trig_local ev s o then (if via_update o then Some 3 else Some 0)
-  else if detached then Some 4
-  else if trig_shared ev s o then Some 1
-  else if trig_rec_hl ev s o then Some 2
+(* the explanation of one offending chunk; [taint] = the ids tainted by EARLIER steps *)
+Definition explain (ev : env) (taint : list N) (s : st) (o : op) (leak : bool) (c : N) : option N :=
+  if negb leak && explain_manifest ev s o c then (if via_update o then Some 3 else Some 0)
+  else if mem c taint then Some 4
+  else if negb leak && explain_shared ev s o c then Some 1
+  else if leak && explain_rec_hl ev s o c then Some 2
   else None.
 
-(* the first step of the model's run at which the property fails, classified *)
-Fixpoint first_failure (ev : env) (detached : bool) (s : st) (ops : list op) : option (option N) :=
+(* one entry per offending chunk of every failing step of the model's run, in program order *)
+Fixpoint failures (ev : env) (taint : list N) (s : st) (ops : list op) : list (option N) :=
   match ops with
-  | [] => None
+  | [] => []
   | o :: ops' =>
       let r := step ev s o in
-      if step_prop ev s o (refs ev s) (refs ev (st_of r)) (sched_of r)
-      then first_failure ev (detached || renames_linked ev s o) (st_of r) ops'
-      else Some (classify ev detached s o)
+      let rb := refs ev s in
+      let ra := refs ev (st_of r) in
+      map (explain ev taint s o false) (live_ids ra (sched_of r)) ++
+      map (explain ev taint s o true) (leaked_ids (requests_deletion ev s o) rb ra (sched_of r)) ++
+      failures ev (taint_of ev s o ++ taint) (st_of r) ops'
+  end.
+
+Definition is_some {A} (x : option A) : bool := match x with Some _ => true | None => false end.
+
+(* None: no step fails; Some (Some k): steps fail, EVERY offending chunk of EVERY failing step is
+   explained by a known finding, k is the finding of the first one; Some None: some offending chunk is
+   explained by nothing *)
+Definition first_failure (ev : env) (ops : list op) : option (option N) :=
+  match failures ev [] empty_st ops with
+  | [] => None
+  | k :: l => Some (if forallb is_some (k :: l) then k else None)
   end.
 
 (* ---------- client assumptions (decidable) ---------- *)
@@ -115,13 +167,6 @@ Definition flat_env (ev : env) : bool :=
 Definition manifests_known (ev : env) (cs : list chunk) : bool :=
   forallb (fun c => negb (c_manifest c) || match ms_lookup (ms ev) (c_fid c) with Some _ => true | None => false end) cs.
 
-(* the chunk list an operation brings *)
-Definition op_chunks (o : op) : list chunk :=
-  match o with
-  | Create _ e _ | Update _ e => h_chunks e
-  | Append _ cs | Write _ cs _ _ => cs
-  | _ => []
-  end.
 Definition op_path (o : op) : path :=
   match o with
   | Create p _ _ | Update p _ | Append p _ | Delete p _ _ _ | Write p _ _ _ | Unlink p => p
